@@ -141,6 +141,7 @@ Fixpoint create_in (vis : itree -> bool) (m : nsmap) (ss : list step) (pos : npa
           | _ :: _, LocationStep _ (NameMatchTest prefix local) ps =>
               match derived_preds ps with
               | Some ds =>
+                  (* the assignment validates the name again; after pre_check this cannot fail any more *)
                   if existsb (reserved_attr m) ds then CFault t0 (FRejected ValueError)
                   else
                   let idx := insert_index vis (tkids t0) in
@@ -163,13 +164,17 @@ Fixpoint create_in (vis : itree -> bool) (m : nsmap) (ss : list step) (pos : npa
       end
   end.
 
-(* before anything is created: the prefixes of ALL steps (fix 8d47eb7); None = no objection *)
+(* before anything is created: the prefixes and the attribute names of ALL steps (fixes 8d47eb7, 675c8b0); None = no objection *)
 Fixpoint pre_check (m : nsmap) (ss : list step) : option fault :=
   match ss with
   | [] => None
   | LocationStep _ (NameMatchTest prefix _) ps :: r =>
       match derived_preds ps with
-      | Some ds => if prefixes_declared m prefix ds then pre_check m r else Some (FRejected XPathEvaluationError)
+      | Some ds =>
+          if prefixes_declared m prefix ds
+          then (* TagAttributes._validate_name for every derived attribute: nothing may fail after a creation (fix 675c8b0) *)
+               if existsb (reserved_attr m) ds then Some (FRejected ValueError) else pre_check m r
+          else Some (FRejected XPathEvaluationError)
       | None => Some (FCrash OtherError)                   (* InvalidCodePath *)
       end
   | _ :: _ => Some (FCrash AssertionError)                  (* assert isinstance(step.node_test, NameMatchTest) *)
